@@ -29,7 +29,7 @@ func invokeName(in ssa.Instruction) string {
 }
 
 func c14(c *core.Check) {
-	c.Explain = "Structural necessary conditions of a well-formed drawing, decided on the SSA form: (R1) typestate of the current path — every Paint/Clip call of the drawing code is reached only with a path under construction; (R2) the page protocol of Document.Write (one AddPage per iteration of the loop over the pages, one CreateAnchors after it, fed by resolveLinks); (R3) link consistency guards (first id wins, dangling internal links dropped); (R4) metadata plumbing from <title>/<meta> to the backend setters; (R5) text is drawn from runs whose font was registered. Finiteness of the numbers, the bookmark outline and the order of graphic-state operations are not decided. Also decided: (R7) every floating point division by an integer count is reached only with a non-zero count (named sites excepted)."
+	c.Explain = "Structural necessary conditions of a well-formed drawing, decided on the SSA form: (R1) typestate of the current path — every Paint/Clip call of the drawing code is reached only with a path under construction; (R2) the page protocol of Document.Write (one AddPage per iteration of the loop over the pages, one CreateAnchors after it, fed by resolveLinks); (R3) link consistency guards (first id wins, dangling internal links dropped); (R4) metadata plumbing from <title>/<meta> to the backend setters; (R5) text is drawn from runs whose font was registered. Finiteness of the numbers, the bookmark outline and the order of graphic-state operations are not decided. Also decided: (R7) every floating point division by an integer count is reached only with a non-zero count (named sites excepted).  (R8) the bookmark outline state is carried across pages; (R9) radial gradient radii are made non-degenerate before they divide."
 	c14Paths(c)
 	c14Pages(c)
 	c14Links(c)
